@@ -46,6 +46,7 @@
     0x00001000 /* ptrdiff_t (d, i, u, o, x, X); ptrdiff_t* (n) */
 #define OPS_LEN_LONGFP 0x00002000 /* long double (f, F, e, E, g, G, a, A) */
 #define OPS_SPEC_UPPER_CASE 0x00004000 /* specifier is tall */
+#define OPS_FORCE_PREFIX 0x00008000    /* 0x prefix even for zero (%p) */
 
 /**
  * Options for print_s
@@ -113,36 +114,53 @@ static int print_i(void (*printchar_handler)(void *d, int c),
 {
     char buff[PRINT_I_BUFF_SZ], *str, *end, *prefix;
     int pc, ch, len, prefix_len, zero_count, space_count, letter_base;
+    int is_negative, is_zero;
 
     str = end = &buff[0] + sizeof buff / sizeof buff[0] - 1;
     *end = '\0';
-    prefix = is_signed && ((long long int)u < 0)         ? (u = 0 - u, "-")
+    is_negative = is_signed && ((long long int)u < 0);
+    if (is_negative)
+        u = 0 - u;
+    is_zero = u == 0;
+    /* the 0x prefix of the alternative form is not added to a zero value
+     * (except for %p, which always carries it) */
+    prefix = is_negative                                 ? "-"
              : is_signed && (ops & OPS_FLAG_WITH_SIGN)   ? "+"
              : is_signed && (ops & OPS_FLAG_EXTRA_SPACE) ? " "
-             : (base == 8) && (ops & OPS_FLAG_WITH_SPEC) ? "0"
-             : (base == 16) && (ops & OPS_FLAG_WITH_SPEC)
+             : (base == 16) &&
+                     ((ops & OPS_FORCE_PREFIX) ||
+                      ((ops & OPS_FLAG_WITH_SPEC) && !is_zero))
                  ? ops & OPS_SPEC_UPPER_CASE ? "0X" : "0x"
                  : "";
     pc = 0;
     prefix_len = (int)strlen(prefix);
     letter_base = ops & OPS_SPEC_UPPER_CASE ? 'A' : 'a';
 
-    do
+    /* a zero value with an explicit zero precision has no digits at all */
+    if (!(is_zero && (ops & OPS_PREC_IS_GIVEN) && min_len == 0))
     {
-        ch = u % base;
-        if (ch >= 10)
-            ch += letter_base - 10 - '0';
-        *--str = ch + '0';
-        u /= base;
-    } while (u);
+        do
+        {
+            ch = u % base;
+            if (ch >= 10)
+                ch += letter_base - 10 - '0';
+            *--str = ch + '0';
+            u /= base;
+        } while (u);
+    }
 
     len = (int)(end - str);
-    zero_count =
-        (len < min_len                                               ? min_len
-         : (ops & OPS_FLAG_ZERO_PAD) && !(ops & OPS_FLAG_LEFT_ALIGN) ? width
-                                                                     : 0) -
-        len - prefix_len;
+    /* the precision is the minimum number of digits (sign and prefix do not
+     * count); the 0 flag pads to the width, but only without a precision */
+    zero_count = (ops & OPS_PREC_IS_GIVEN) ? min_len - len
+                 : (ops & OPS_FLAG_ZERO_PAD) && !(ops & OPS_FLAG_LEFT_ALIGN)
+                     ? width - len - prefix_len
+                     : 0;
     zero_count = MAX(zero_count, 0);
+    /* alternative octal form: make the first digit a zero */
+    if ((base == 8) && (ops & OPS_FLAG_WITH_SPEC) && zero_count == 0 &&
+        (len == 0 || *str != '0'))
+        zero_count = 1;
     space_count = width - len - prefix_len - zero_count;
     space_count = MAX(space_count, 0);
 
@@ -590,8 +608,8 @@ int __printf(void (*printchar_handler)(void *d, int c),
                           (size_t)tmp.vp,
                           0,
                           width,
-                          sizeof tmp.vp * 2 + 2,
-                          ops | (OPS_FLAG_WITH_SPEC | OPS_FLAG_ZERO_PAD),
+                          sizeof tmp.vp * 2,
+                          ops | (OPS_FORCE_PREFIX | OPS_PREC_IS_GIVEN),
                           16);
             break;
         case 'n':
